@@ -202,6 +202,12 @@ fn parse_field(base_data_size: usize, field: &Field) -> Result<FieldDefinition> 
                     }
                     match range_parser {
                         ArgumentParser::RangeGotBothLimits(lower, upper) => {
+                            if upper < lower {
+                                return Err(Error::new_spanned(
+                                    &range_span,
+                                    "bitfield!: The upper limit of a bit-range must not be smaller than its lower limit",
+                                ));
+                            }
                             if !is_in_array && !is_range {
                                 return Err(Error::new_spanned(
                                     &range_span,
